@@ -44,7 +44,7 @@ ASSUMPTIONS = [
 ]
 PROBES = ["reconnect", "late-finaliser", "two-in-flight", "send-races-disconnect", "nonblocking-recv-empty", "nonblocking-recv-got", "callback-delivery",
           "structured", "silent", "broadcast", "broadcast-poll", "three-endpoints", "two-socket-ids", "connection-error-after-disconnect",
-          "recv-timeout", "lock-contended", "stalled-thread", "late-starter", "connect-timeout-then-retry"]
+          "recv-timeout", "lock-contended", "stalled-thread", "late-starter", "connect-timeout-then-retry", "connect-attempt-races-with-peer"]
 
 _mods: Dict[str, Any] = {}
 
@@ -64,6 +64,11 @@ def _load():
 def gen_scenario(ch: Choices, calm: bool, no_cb_reconnect: bool = False, tier: str = "quick", avoid: Any = ()) -> Dict[str, Any]:
     deep = (not calm) and tier == "thorough" and ch.flag(1, 2, "deep")   # deeper bounds in half of the thorough runs
     n_ep = 2 if calm else 2 + ch.draw(2, "nep")
+    if (not calm) and "connect-race" not in avoid and ch.flag(1, 6, "race"):
+        # an impatient connect attempt that RACES with the peer's arrival: the peer may connect to (and send through) the
+        # attempt just before it gives up; whatever happens, the second attempt must receive every message once, in order
+        return {"names": ["a", "b"], "broadcast": False, "race": True, "n_msgs": 1 + ch.draw(3, "racemsgs"), "race_hold": ch.draw(5, "racehold"),
+                "script": [("race",)], "chans": [], "callback": {}}
     names = ["a", "b", "c"][:n_ep]
     broadcast = (n_ep == 3) and ch.flag(1, 3, "bcast")
     script: List[tuple] = []
@@ -146,7 +151,8 @@ def gen_scenario(ch: Choices, calm: bool, no_cb_reconnect: bool = False, tier: s
             budget[x] -= 1
             reconnects.append((x, y, sid))
     return {"names": names, "broadcast": False, "script": script, "chans": chans, "callback": callback,
-            "reconnect": bool(reconnects), "impatient": sorted(impatient)}
+            "reconnect": bool(reconnects), "impatient": sorted(impatient),
+            "storage_cb": any(callback.values()) and ch.flag(1, 2, "storagecb")}
 
 
 def run(ch: Choices, opts: Dict[str, Any]) -> Dict[str, Any]:
@@ -174,6 +180,16 @@ def run(ch: Choices, opts: Dict[str, Any]) -> Dict[str, Any]:
         bump(faults, "endpoint-reconnects-while-peer-stays")
     if len({c[2] for c in sc["chans"]}) == 2:
         bump(probes, "two-socket-ids")
+    # a thread that freezes at a drawn point of its own execution (after its k-th source line inside the three modules)
+    if not calm and ch.flag(1, 2 if sc.get("race") else 5, "freeze"):
+        who = "a" if sc.get("race") else names[ch.draw(len(names), "freezewho")]
+        sched.stall_at[who] = (1 + ch.draw(160, "freezeat"), 20 + ch.draw(200, "freezelen"))
+        bump(faults, "thread-frozen-at-a-drawn-line")
+    # ... or a few lines after waking up from its k-th sleep (the connect / receive polling loops look, then decide)
+    if not calm and ch.flag(1, 2 if sc.get("race") else 6, "freeze-after-sleep"):
+        who = "a" if sc.get("race") else names[ch.draw(len(names), "fswho")]
+        sched.freeze_after_sleep[who] = (1 + ch.draw(4, "fsk"), 1 + ch.draw(10, "fslines"), 20 + ch.draw(200, "fslen"))
+        bump(faults, "thread-frozen-after-a-sleep")
     # a stalled thread: not schedulable for a stretch of pre-emption points
     if not calm and ch.flag(1, 4, "stall"):
         who = names[ch.draw(len(names), "stallwho")]
@@ -191,6 +207,13 @@ def run(ch: Choices, opts: Dict[str, Any]) -> Dict[str, Any]:
     bc.timer = sched.timer
     sh.reset_socket_hub()
     hub = sh._socket_hub
+    if sc.get("race"):
+        class _RecSet(set):
+            # observation only: when did a key become visible as open?
+            def add(self, key):
+                race_info.setdefault("opened", []).append((sched.points, key))
+                super().add(key)
+        hub._open_sockets = _RecSet(hub._open_sockets)
     old_hook = sys.unraisablehook
     sys.unraisablehook = lambda *a: None
 
@@ -204,6 +227,8 @@ def run(ch: Choices, opts: Dict[str, Any]) -> Dict[str, Any]:
 
     created: List[Any] = []
     tries_done = [0]
+    race_done = [False]
+    race_info: Dict[str, Any] = {}
 
     late: List[tuple] = []
 
@@ -229,6 +254,29 @@ def run(ch: Choices, opts: Dict[str, Any]) -> Dict[str, Any]:
         def conn_lost_callback(self):
             lost_log.append((sched.points, self.app_name))
 
+    class StoreSock(ts.StorageThreadSocket):
+        """the repository's own callback endpoint (stores what comes in), observed the same way"""
+
+        def __init__(self, *a, **kw):
+            created.append(weakref.ref(self))
+            self._sim_owner = threading.current_thread().name
+            kw.pop("use_callbacks", None)
+            super().__init__(*a, **kw)
+
+        def recv_callback(self, msg):
+            super().recv_callback(msg)
+            cb_log.setdefault((self.remote_app_name, self.app_name, self.id), []).append((sched.points, msg))
+
+        def conn_lost_callback(self):
+            lost_log.append((sched.points, self.app_name))
+
+        def __del__(self):
+            if threading.current_thread().name != getattr(self, "_sim_owner", None):
+                late.append((getattr(self, "_app_name", "?"), threading.current_thread().name, sched.points))
+            super().__del__()
+
+    CbSock = StoreSock if sc.get("storage_cb") else RecSocket
+
     def record(th: str, op: tuple):
         e = {"thread": th, "op": op, "invoke": sched.points, "ret": None, "out": None, "exc": None}
         hist.append(e)
@@ -244,6 +292,69 @@ def run(ch: Choices, opts: Dict[str, Any]) -> Dict[str, Any]:
     def endpoint(me: str):
         def body():
             socks: Dict[Tuple[str, int], Any] = {}
+            if sc.get("race"):
+                if me == "a":
+                    s0 = None
+                    e0 = record(me, ("connect_try", "b", 0))
+                    try:
+                        s0 = TSock("a", "b", socket_id=0, timeout=0.25)
+                        finish(e0, "ok")
+                    except TimeoutError:
+                        race_info["a_last_wake_before_timeout"] = [t for t in sched.threads if t.name == "a"][0].last_wake_point
+                        finish(e0, "timed-out")
+                        bump(faults, "connect-attempt-timed-out")
+                    except Exception as x:  # noqa: BLE001
+                        finish(e0, exc=type(x).__name__)
+                        return
+                    gc.collect()
+                    if s0 is None:
+                        e0 = record(me, ("connect", "b", 0, False))
+                        try:
+                            s0 = TSock("a", "b", socket_id=0, timeout=120.0)
+                            finish(e0, "ok")
+                        except Exception as x:  # noqa: BLE001
+                            finish(e0, exc=type(x).__name__)
+                            race_done[0] = True
+                            return
+                    for _ in range(sc["n_msgs"]):
+                        e0 = record(me, ("recv", "b", 0, "block"))
+                        try:
+                            finish(e0, s0.recv(block=True, timeout=60.0))
+                        except Exception as x:  # noqa: BLE001
+                            finish(e0, exc=type(x).__name__)
+                    race_done[0] = True
+                    s0 = None
+                else:
+                    # the peer turns up while the impatient side is in its k-th poll interval (k drawn; 0 = at once)
+                    ath = [t for t in sched.threads if t.name == "a"]
+                    while ath and ath[0].sleeps < sc["race_hold"] and ath[0].state != "done" and not race_done[0]:
+                        sched.sleep(0.01)
+                    e0 = record(me, ("connect", "a", 0, False))
+                    try:
+                        s1 = TSock("b", "a", socket_id=0, timeout=120.0)
+                        finish(e0, "ok")
+                    except Exception as x:  # noqa: BLE001
+                        finish(e0, exc=type(x).__name__)
+                        return
+                    for i in range(sc["n_msgs"]):
+                        while True:
+                            e0 = record(me, ("send", "a", 0, "plain", f"m{i + 1}"))
+                            try:
+                                s1.send(f"m{i + 1}")
+                                finish(e0, "ok")
+                                break
+                            except ConnectionError:
+                                # the other side gave up and has not come back yet: legitimate, try again a little later
+                                finish(e0, exc="ConnectionError")
+                                if race_done[0]:
+                                    break
+                                sched.sleep(0.05)
+                        if race_done[0]:
+                            break
+                    while not race_done[0]:
+                        sched.sleep(0.05)
+                    s1 = None
+                return
             if sc["broadcast"]:
                 e = record(me, ("bconnect",))
                 try:
@@ -316,7 +427,7 @@ def run(ch: Choices, opts: Dict[str, Any]) -> Dict[str, Any]:
                 usecb = sc["callback"].get((peer, me, sid), False)
                 e = record(me, ("connect", peer, sid, usecb))
                 try:
-                    cls = RecSocket if usecb else TSock
+                    cls = CbSock if usecb else TSock
                     socks[(peer, sid)] = cls(me, peer, socket_id=sid, timeout=120.0, use_callbacks=usecb)
                     finish(e, "ok")
                 except Exception as x2:  # noqa: BLE001
@@ -368,7 +479,7 @@ def run(ch: Choices, opts: Dict[str, Any]) -> Dict[str, Any]:
                     finish(e, "ok")
                     e = record(me, ("connect", peer, sid, usecb))
                     try:
-                        cls = RecSocket if usecb else TSock
+                        cls = CbSock if usecb else TSock
                         socks[(peer, sid)] = cls(me, peer, socket_id=sid, timeout=120.0, use_callbacks=usecb)
                         finish(e, "ok")
                     except Exception as x2:  # noqa: BLE001
@@ -435,7 +546,26 @@ def run(ch: Choices, opts: Dict[str, Any]) -> Dict[str, Any]:
         for e in hist:
             if e["op"][0] in ("connect", "bconnect") and e["exc"] is not None:
                 raise Violation("rendezvous", f"rendezvous|{e['exc']}", {"op": e, **detail})
-        if sc["broadcast"]:
+        if sc.get("race"):
+            bump(probes, "connect-attempt-races-with-peer")
+            sent = [e["op"][4] for e in hist if e["thread"] == "b" and e["op"][0] == "send" and e["exc"] is None]
+            got = [_payload(e["out"]) for e in hist if e["thread"] == "a" and e["op"][0] == "recv" and e["exc"] is None]
+            bad = [e for e in hist if e["exc"] is not None and not (e["op"][0] == "send" and e["exc"] == "ConnectionError")]
+            left = [_payload(v) for v in leftover.get(("a", "b", 0), [])]
+            if got != sent[:len(got)] or got + left != sent or bad:
+                raise Violation("once", "once|connect-race|second-attempt-did-not-receive-what-was-sent",
+                                {"sent": sent, "received": got, "queued": left, "failed": bad[:3], **detail})
+            timed_out = any(e["op"][0] == "connect_try" and e["out"] == "timed-out" for e in hist)
+            b_open = [pt for (pt, key) in race_info.get("opened", []) if key[0] == "b"]
+            wake = race_info.get("a_last_wake_before_timeout")
+            if timed_out and b_open and wake is not None and b_open[0] < wake:
+                # after every wake-up the polling loop looks for the peer before it looks at the clock: a peer that was
+                # visible before the attempt's last wake-up must have been found
+                raise Violation("rendezvous", "rendezvous|attempt-timed-out-although-the-peer-was-visible-before-its-last-look",
+                                {"peer_visible_at": b_open[0], "last_wake_up_at": wake, **detail})
+            if timed_out and sent:
+                nontrivial = True
+        elif sc["broadcast"]:
             sends = [e for e in hist if e["op"][0] == "bsend" and e["exc"] is None]
             for x in names:
                 got = [e["out"] for e in hist if e["thread"] == x and e["exc"] is None
